@@ -36,7 +36,7 @@ SWEEP_MAX = 24
 
 def gen_cases(tier, seed):
     rng = lib.rng_for(seed, "C14", "lat")
-    n = 14 if tier == "quick" else 160
+    n = 40 if tier == "quick" else 200
     cases = []
     for i in range(n):
         p = g.gen_program(rng, ["max", "dual"] if i % 4 == 0 else None)
@@ -55,6 +55,10 @@ def gen_cases(tier, seed):
             for k in (1, 2, 3):
                 reruns.append(dict(first_by_run_timeout=bool(rng.getrandbits(1)), push=f, k=k))
         cases.append(dict(id="c14lat_%d" % i, prog=p, input=i0, chains=chains, reruns=reruns))
+    # fixed probe: improvements must propagate through several iterations (see c13_lat.probe_program)
+    pp, pin = c13_lat.probe_program()
+    cases.insert(0, dict(id="c14lat_probe_cycle", prog=pp, input=pin, chains=[[1, 2], [2, 2], [3, 1], [1, 1, 1], [4, 4]],
+                         reruns=[dict(first_by_run_timeout=bool(k % 2), push={"edge": [(2, 0, 1)], "sp": [(7, 7, 0)]}, k=k) for k in (1, 2, 3, 4)]))
     return cases
 
 
@@ -128,8 +132,10 @@ def _show(sh, inv):
 
 # ------------------------------------------------------------------ specification checks on implementation rows
 
-def check_call(p, base, rows, final, ret, what):
-    """rows after a call of run_timeout that returned `ret`, the rows `base` present before the first call, the least fixed point `final`"""
+def check_call(p, base, rows, final, ret, what, positional=True):
+    """rows after a call of run_timeout that returned `ret`, the rows `base` present before the call, the least fixed point `final`;
+    positional=False (rows of the MODEL against a base taken from the implementation, whose derived rows are in another order):
+    the rows present before are looked up by key / as a set instead of by row number"""
     lats = g.lat_of(p)
     fmap = {n: {t[:-1]: t[-1] for t in final[n]} for n in lats}
     for name, _, _ in p["rels"]:
@@ -139,13 +145,17 @@ def check_call(p, base, rows, final, ret, what):
             keys = [t[:-1] for t in got]
             if len(keys) != len(set(keys)):
                 return "%s: lattice %s holds %d rows for %d keys" % (what, name, len(got), len(set(keys)))
-            if len(got) < len(b) or any(got[i][:-1] != b[i][:-1] or not voc.leq(ty, b[i][-1], got[i][-1]) for i in range(len(b))):
+            gm = {t[:-1]: t[-1] for t in got}
+            if not positional:
+                if any(t[:-1] not in gm or not voc.leq(ty, t[-1], gm[t[:-1]]) for t in b):
+                    return "%s: a row of %s present before the call is gone or went down" % (what, name)
+            elif len(got) < len(b) or any(got[i][:-1] != b[i][:-1] or not voc.leq(ty, b[i][-1], got[i][-1]) for i in range(len(b))):
                 return "%s: the rows of %s present before the call are not in place with values that only went up: before %s, after %s" % (what, name, b[:6], got[:6])
             for t in got:
                 if t[:-1] not in fmap[name] or not voc.leq(ty, t[-1], fmap[name][t[:-1]]):
                     return "%s: row %s of lattice %s (%s) is not below the final value %s" % (what, t, name, ty, fmap[name].get(t[:-1]))
         else:
-            if got[:len(b)] != b:
+            if (got[:len(b)] != b) if positional else (not set(b) <= set(got)):
                 return "%s: the rows of %s present before the call are not an unmodified prefix" % (what, name)
             if len(set(got)) != len(got) and len(set(b)) == len(b):
                 return "%s: relation %s holds duplicate rows" % (what, name)
@@ -250,12 +260,12 @@ def tie_part(tier, seed):
                     if k > len(model):
                         soft += 1
                         continue
-                    (mb, mrows), mfin = model[k - 1][0], model[k - 1][1]
+                    mb, mrows, mfin = model[k - 1]
                     mrows, mfin = _show(mrows, inv), _show(mfin, inv)
                     if not same_rows(p, mfin, fin):
                         diff = "rows after run() following run_timeout(%d)" % k
                     elif mb != ret or not same_rows(p, mrows, rows):
-                        if sens and check_call(p, base, mrows, final0, mb, "model") is None:
+                        if sens and check_call(p, base, mrows, final0, mb, "model", positional=False) is None:
                             soft += 1
                         else:
                             diff = "run_timeout(%d) on the input: flag (model %s, implementation %s) or rows after the call" % (k, mb, ret)
@@ -299,7 +309,7 @@ def tie_part(tier, seed):
                         for j, (ret, rows) in enumerate(calls):
                             mb, mrows = mcalls[j][0], _show(mcalls[j][1], inv)
                             if mb != ret or not same_rows(p, mrows, rows):
-                                if sens and check_call(p, mprev if j else base, mrows, final, mb, "model") is None:
+                                if sens and check_call(p, mprev if j else base, mrows, final, mb, "model", positional=False) is None:
                                     soft += 1
                                     break          # later calls start from different rows
                                 diff = "call #%d run_timeout(%d): flag (model %s, implementation %s) or rows after the call" % (j + 1, ks[j], mb, ret)
